@@ -37,6 +37,10 @@ pub struct PeerScript {
     pub compete: Option<Compete>,
     /// answer the node's heartbeats once it leads (keeps it leader)
     pub ack_heartbeats: bool,
+    /// (delay in ms, priority): whenever the node asks for votes, this peer asks for votes itself
+    /// shortly afterwards and then stays silent, so that the node's round is abandoned, not timed out
+    #[serde(default)]
+    pub react_compete: Option<(u8, i64)>,
 }
 
 #[derive(Clone, Debug, PartialEq, Serialize, Deserialize)]
@@ -178,6 +182,15 @@ async fn run_case(case: &Case) -> Result<CaseReport, Failure> {
                 let Ok(msg) = serde_json::from_slice::<Value>(&buf[..len]) else { continue };
                 if msg["vote"]["request"]["nodeId"] == json!("n0") {
                     shared.lock().expect("lock").vote_requests_seen += 1;
+                    if let Some((d, priority)) = p.react_compete {
+                        // a competing candidate that never follows up: the node's round ends early
+                        let sock = sock.clone();
+                        let id = id.clone();
+                        tokio::spawn(async move {
+                            tokio::time::sleep(Duration::from_millis(d as u64)).await;
+                            sock.send_to(json!({"vote": {"request": {"nodeId": id, "priority": priority}}}).to_string().as_bytes(), node_addr).await.ok();
+                        });
+                    }
                     if p.vote_delay_ms > 0 {
                         tokio::time::sleep(Duration::from_millis(p.vote_delay_ms as u64)).await;
                     }
@@ -328,12 +341,36 @@ fn peer_script() -> BoxedStrategy<PeerScript> {
                 .prop_map(|(at_ms, priority, heartbeat_after_ms)| Compete { at_ms, priority, heartbeat_after_ms }),
         ),
         any::<bool>(),
+        proptest::option::weighted(0.2, (prop_oneof![Just(1u8), Just(5u8), Just(25u8)], prop_oneof![Just(-5i64), Just(0i64), Just(5i64), Just(i64::MAX)])),
     )
-        .prop_map(|(votes_per_request, vote_delay_ms, unsolicited_votes, compete, ack_heartbeats)| PeerScript { votes_per_request, vote_delay_ms, unsolicited_votes, compete, ack_heartbeats })
+        .prop_map(|(votes_per_request, vote_delay_ms, unsolicited_votes, compete, ack_heartbeats, react_compete)| PeerScript { votes_per_request, vote_delay_ms, unsolicited_votes, compete, ack_heartbeats, react_compete })
+        .boxed()
+}
+
+/// structured: 4-7 nodes, some peers vote at once in every round, one peer answers every vote request
+/// of the node with a vote request of its own (equal or better priority) and never follows up, so that
+/// the node's rounds are abandoned one after the other while votes keep coming in
+fn abandoned_rounds_case() -> BoxedStrategy<Case> {
+    (3..=6usize, 1..=2usize, prop_oneof![Just(1u8), Just(5u8), Just(25u8)], prop_oneof![Just(0i64), Just(5i64), Just(i64::MAX)], proptest::option::weighted(0.3, Just(0i64)), any::<bool>())
+        .prop_map(|(n_peers, voters, delay, priority, own_priority, dup)| {
+            let silent = PeerScript { votes_per_request: 0, vote_delay_ms: 0, unsolicited_votes: 0, compete: None, ack_heartbeats: false, react_compete: None };
+            let mut peers = vec![silent.clone(); n_peers];
+            // never enough distinct voters for the default quorum of n_peers + 1 nodes
+            let voters = voters.min((n_peers + 1) / 2 + 1 - 2).max(1);
+            for p in peers.iter_mut().take(voters) {
+                p.votes_per_request = if dup { 3 } else { 1 };
+            }
+            peers[n_peers - 1].react_compete = Some((delay, priority));
+            Case { peers, quorum: None, own_priority, foreign_votes: 0, foreign_heartbeat_at_ms: None, duration_ms: 1500 }
+        })
         .boxed()
 }
 
 fn case() -> BoxedStrategy<Case> {
+    prop_oneof![4 => free_case(), 1 => abandoned_rounds_case()].boxed()
+}
+
+fn free_case() -> BoxedStrategy<Case> {
     (
         proptest::collection::vec(peer_script(), 0..=6),
         proptest::option::weighted(0.4, 1..=7u8),
@@ -360,7 +397,7 @@ pub fn run(cfg: &RunCfg) -> i32 {
     let (agg, v) = run_prop(cfg, "black-box", n, case, |c: &Case| check_case(c, &kfs));
     check.add_part(
         "black-box",
-        "cluster sizes 1..=7 with configured quorum absent or 1..=7 and own priority absent/-5/0/5; per peer a script: silent / one / three (duplicate) votes per vote request, immediate / 20 ms / 250 ms (next round) delay, unsolicited votes right after the start, a competing vote request with priority in {i64::MIN,-5,0,5,i64::MAX} with or without a following heartbeat, acknowledging the node's heartbeats or not; votes and heartbeats from a node that is not part of the cluster; oracle on the stub's command lines: --leader only when >= quorum-1 distinct configured peers had sent a vote in answer to a vote request, --follower only towards the sync address of a configured peer that had announced itself; non-trivial = >= 3 nodes and duplicate/foreign/unsolicited votes or a competing candidate, and the node took part in an election; distinct = case",
+        "cluster sizes 1..=7 with configured quorum absent or 1..=7 and own priority absent/-5/0/5; per peer a script: silent / one / three (duplicate) votes per vote request, immediate / 20 ms / 250 ms (next round) delay, unsolicited votes right after the start, a competing vote request with priority in {i64::MIN,-5,0,5,i64::MAX} with or without a following heartbeat (at a generated time, or in reaction to every vote request of the node so that its rounds are abandoned instead of timing out), acknowledging the node's heartbeats or not; votes and heartbeats from a node that is not part of the cluster; a fifth of the cases are structured 4-7 node clusters in which fewer than quorum-1 peers vote in every round while one peer keeps the rounds being abandoned; oracle on the stub's command lines: --leader only when >= quorum-1 distinct configured peers had sent a vote in answer to a vote request, --follower only towards the sync address of a configured peer that had announced itself; non-trivial = >= 3 nodes and duplicate/foreign/unsolicited votes or a competing candidate, and the node took part in an election; distinct = case",
         false,
         agg,
     );
